@@ -5,6 +5,10 @@ Model of `cashews/decorators/cache/iterator.py` (`iterator`, after the repairs 8
 the whole history) performs `script n`.  A consumer either drains the stream it is given, or stops early
 (`Consumer`): a real run is therefore one of {completed, raised, abandoned after some items, cancelled
 after some items} (`Ending`); only a run that ended by itself can ever write the marker.
+An item (`Res`) is a VALUE: what the yielded object was at the moment it was yielded (`await backend.set(key:i, chunk)` runs
+right after `yield chunk` and the backend keeps a copy / a serialised form) - a generator that keeps updating one object and
+yields it again delivers, and has replayed, the sequence of its states.  Items may be anything, exception instances
+(`Kind.eobj`) included: only what a run RAISED is stored as `RaiseException` and raised by a replay.
 Mathlib-free.
 -/
 namespace CashewsVerif.Decor.Iter
